@@ -57,7 +57,7 @@ Section Proofs.
   (* ---- growing the interner table does not disturb existing elements ---- *)
   Lemma resolve_ext strs ext i t : resolve strs i = Some t -> resolve (strs ++ ext) i = Some t.
   Proof.
-    unfold resolve. intros E. rewrite nth_error_app1; [exact E|].
+    rewrite !resolve_eq. intros E. rewrite nth_error_app1; [exact E|].
     apply nth_error_Some. congruence.
   Qed.
 
@@ -92,9 +92,9 @@ Section Proofs.
     unfold intern. destruct (find_index (text_eqb t) strs) as [i|] eqn:F.
     - intros [= <- <-]. exists []. rewrite app_nil_r. split; [reflexivity|].
       destruct (find_index_some _ _ _ F) as (x & Hx & Px). apply text_eqb_eq in Px. subst x.
-      unfold resolve. rewrite Nat2N.id. exact Hx.
+      rewrite resolve_eq. rewrite Nat2N.id. exact Hx.
     - intros [= <- <-]. exists [t]. split; [reflexivity|].
-      unfold resolve. rewrite Nat2N.id, nth_error_app2, Nat.sub_diag; [reflexivity|lia].
+      rewrite resolve_eq. rewrite Nat2N.id, nth_error_app2, Nat.sub_diag; [reflexivity|lia].
   Qed.
 
   (* ---- cache invariant ---- *)
